@@ -117,6 +117,15 @@ func runEntry(b *build.Built, c *ExecCase, text, entry string, plan **graphql.Pl
 		lr.Root = root
 		lr.Res = graphql.ExecutePlan(*plan, graphql.ExecuteParams{Schema: b.Schema, Root: root, OperationName: c.OpName,
 			Args: c.goVars(), Context: ctx})
+	case "planzero":
+		// the prepared plan with ExecuteParams.Schema left at its zero value: a plan is bound to the schema it was
+		// made for, and ExecutePlan documents that the parameter is not consulted
+		if *plan == nil {
+			return lr, fmt.Errorf("planzero before plan")
+		}
+		root := &ref.Tok{Type: "root", ID: ""}
+		lr.Root = root
+		lr.Res = graphql.ExecutePlan(*plan, graphql.ExecuteParams{Root: root, OperationName: c.OpName, Args: c.goVars(), Context: ctx})
 	}
 	return lr, nil
 }
